@@ -145,6 +145,48 @@ def run(rep, tier, seed, model_ok=True, effort=1):
                     files = sorted(l.split("|")[0].strip() for l in stat.splitlines() if "|" in l)
                     if files != ["bumpver.toml", "zz_version.txt"]:
                         rep.violation("the bump commit contains other files than the configured ones: %s" % files, input=inp, **{"class": "swept-in"})
+    # with a pre-commit hook configured, --allow-dirty still keeps an unrelated modified file out of the bump commit
+    prj = project.TempProject("MAJOR.MINOR.PATCH", "1.2.3", files={"a.txt": ["ver = {version}"]}, contents={"other.txt": "unrelated\n"},
+                              commit=True, tag=False, push=False, vcs="git", hooks={"pre": "ok"})
+    with prj:
+        open(prj.path("other.txt"), "a").write("work in progress\n")
+        status_text = prj.git("status", "--porcelain")
+        args = ["update", "--patch", "--no-fetch", "--commit", "--allow-dirty"]
+        code, out, logs, exc = prj.run(impl, args)
+        stat = prj.git("show", "--stat", "--format=", "HEAD")
+        files = sorted(l.split("|")[0].strip() for l in stat.splitlines() if "|" in l)
+        rep.case(("hook+allow-dirty",), nontrivial=True)
+        if code != 0 or "other.txt" in files:
+            rep.violation("with a pre-commit hook and --allow-dirty the bump commit contains other files than the configured ones: %s (exit %s)" % (files, code),
+                          input=dict(status="modified-unstaged", file="other.txt", allow_dirty=True, hooks="pre", git_status=status_text, args=args, exit=code, logs=logs[-3:]), **{"class": "swept-in"})
+    # the project lives in a sub-directory of the repository (monorepo): git reports paths relative to the repository root, the configuration
+    # names them relative to the project.  Whatever bumpver does there, an uncommitted edit of a pattern file never ends up in a commit it makes
+    import tempfile, shutil, subprocess
+    root = tempfile.mkdtemp(prefix="bvmono_", dir=project.SCRATCH)
+    try:
+        sub = os.path.join(root, "services", "api")
+        os.makedirs(sub)
+        open(os.path.join(sub, "bumpver.toml"), "w").write('[bumpver]\ncurrent_version = "1.2.3"\nversion_pattern = "MAJOR.MINOR.PATCH"\ncommit = true\ntag = false\npush = false\n\n'
+                                                            '[bumpver.file_patterns]\n"bumpver.toml" = [\'current_version = "{version}"\']\n"version.txt" = ["ver = {version}"]\n')
+        open(os.path.join(sub, "version.txt"), "w").write("ver = 1.2.3\n")
+        def g(*a):
+            return subprocess.run(["git"] + list(a), cwd=root, capture_output=True, text=True).stdout
+        g("init", "-q", "-b", "main"); g("config", "user.email", "t@example.com"); g("config", "user.name", "t"); g("config", "commit.gpgsign", "false")
+        g("add", "-A"); g("commit", "-q", "-m", "initial")
+        open(os.path.join(sub, "version.txt"), "a").write("uncommitted note\n")
+        n0 = len(g("log", "--oneline").splitlines())
+        for extra in (["--allow-dirty"], []):
+            code, out, exc = impl.run_cli(["update", "--patch", "--no-fetch"] + extra, cwd=sub)
+            n1 = len(g("log", "--oneline").splitlines())
+            shown = g("show", "HEAD") if n1 > n0 else ""
+            rep.case(("monorepo-subdir", tuple(extra)), nontrivial=True)
+            if "uncommitted note" in shown:
+                rep.violation("an uncommitted edit of a pattern file was swept into the bump commit (project in a sub-directory of the repository)",
+                              input=dict(cwd="services/api", args=["update", "--patch", "--no-fetch"] + extra, exit=code, git_status=g("status", "--porcelain")), **{"class": "dirty-not-blocked"})
+                break
+            n0 = n1
+    finally:
+        shutil.rmtree(root, ignore_errors=True)
     # synthetic porcelain lines (all XY codes) for the parser correspondence
     xy = ["  ", " M", "M ", "MM", "A ", "AM", " D", "D ", "R ", "RM", "C ", "??", "!!", "UU", "AA", " T"]
     for a, b in itertools.product(xy, repeat=2):
